@@ -276,7 +276,25 @@ func mkVar(name string, s *Sort) *Term {
 // fresh returns a new declared constant with a unique name derived from base.
 func fresh(base string, s *Sort) *Term {
 	freshSeq[base]++
-	return mkVar(fmt.Sprintf("%s!%d", base, freshSeq[base]), s)
+	v := mkVar(fmt.Sprintf("%s!%d", base, freshSeq[base]), s)
+	serialCounter++
+	varSerial[v] = serialCounter
+	return v
+}
+
+var (
+	varSerial     = map[*Term]int{}
+	serialCounter int
+)
+
+// newerThan: does t mention a fresh symbol created after serial s0?
+func newerThan(t *Term, s0 int) bool {
+	for _, v := range collectVars(t) {
+		if varSerial[v] > s0 {
+			return true
+		}
+	}
+	return false
 }
 
 func mkBound(name string, s *Sort) *Term {
